@@ -114,70 +114,8 @@ impl<W: WorldSpec> Engine<W> {
         }
         match res {
             Ok(w2) => {
-                // C04/C13: every live cell cloned exactly once, nothing else
-                let mut by_src: BTreeMap<(u8, u32), u32> = BTreeMap::new();
-                let mut noid = [0u64; rt::NKINDS];
-                for (k, s, n) in &clone_log {
-                    if kind_has_id(*k) {
-                        if by_src.insert((*k, *s), *n).is_some() {
-                            vio("C04", "cloned-twice", format!("clone(): value kind={} id={} was cloned twice", k, s));
-                            drop(w2);
-                            return;
-                        }
-                    } else {
-                        noid[*k as usize] += 1;
-                    }
-                }
-                let mut m2 = self.ms[wid].clone();
-                let mut want_noid = [0u64; rt::NKINDS];
-                let mut cells = 0usize;
-                for r in m2.ents.values_mut() {
-                    for c in r.cols.iter_mut() {
-                        if c.kind == 6 {
-                            continue; // untracked Copy ZST
-                        }
-                        cells += 1;
-                        if kind_has_id(c.kind) {
-                            match by_src.remove(&(c.kind, c.id)) {
-                                Some(n) => c.id = n,
-                                None => {
-                                    vio("C04", "live-value-not-cloned", format!("clone(): live value kind={} id={} was not cloned", c.kind, c.id));
-                                    drop(w2);
-                                    return;
-                                }
-                            }
-                        } else {
-                            want_noid[c.kind as usize] += 1;
-                        }
-                    }
-                }
-                if !by_src.is_empty() || noid != want_noid {
-                    vio("C04", "cloned-non-live-value", format!("clone(): cloned values that are not live cells: {:?} (zero-sized counts {:?} vs {:?})", by_src, &noid[..8], &want_noid[..8]));
-                    drop(w2);
-                    return;
-                }
-                let _ = cells;
-                let nid = self.ws.len();
-                self.ws.push(Some(w2));
-                self.ms.push(m2);
-                for e in self.book.iter_mut() {
-                    if let Some(n) = e.native_in(wid) {
-                        e.natives.push(Native { world: nid, ..n });
-                    }
-                }
-                self.stats.inc("F9_fork");
-                if self.ms[wid].archs.iter().any(|a| a.len > 0 && a.len < a.cap) {
-                    self.stats.inc("fork_below_capacity");
-                }
-                if self.ms[wid].archs.iter().any(|a| a.removals > 0 && a.len > 0) {
-                    self.stats.inc("fork_after_removals");
-                }
-                // identical at the fork instant: audit the replica against the copied model, all handles
-                let save = self.cur;
-                self.cur = nid;
-                self.audit_step(true);
-                self.cur = save;
-                // C13: relabel violations found on the replica at the fork instant
+                let base = self.ms[wid].clone();
+                self.register_fork(wid, w2, base, &clone_log);
             }
             Err(c) => {
                 if c.injected == Some(Injected::Clone) {
@@ -200,6 +138,92 @@ impl<W: WorldSpec> Engine<W> {
         // after a normal return and after unwinding (C11)
         if !rt::has_violation() {
             self.check_all_released(wid, "World::clone");
+        }
+    }
+
+    /// A successful `clone()` of world `wid` becomes a replica: every live cell cloned exactly once
+    /// (C04), then audited against a copy of the model taken at the fork instant (C13).
+    pub fn register_fork(&mut self, wid: usize, w2: W, base: Model, clone_log: &[(u8, u32, u32)]) {
+        // C04/C13: every live cell cloned exactly once, nothing else
+        let mut by_src: BTreeMap<(u8, u32), u32> = BTreeMap::new();
+        let mut noid = [0u64; rt::NKINDS];
+        for (k, s, n) in clone_log {
+            if kind_has_id(*k) {
+                if by_src.insert((*k, *s), *n).is_some() {
+                    vio("C04", "cloned-twice", format!("clone(): value kind={} id={} was cloned twice", k, s));
+                    drop(w2);
+                    return;
+                }
+            } else {
+                noid[*k as usize] += 1;
+            }
+        }
+        let mut m2 = base;
+        let mut want_noid = [0u64; rt::NKINDS];
+        let mut cells = 0usize;
+        for r in m2.ents.values_mut() {
+            for c in r.cols.iter_mut() {
+                if c.kind == 6 {
+                    continue; // untracked Copy ZST
+                }
+                cells += 1;
+                if kind_has_id(c.kind) {
+                    match by_src.remove(&(c.kind, c.id)) {
+                        Some(n) => c.id = n,
+                        None => {
+                            vio("C04", "live-value-not-cloned", format!("clone(): live value kind={} id={} was not cloned", c.kind, c.id));
+                            drop(w2);
+                            return;
+                        }
+                    }
+                } else {
+                    want_noid[c.kind as usize] += 1;
+                }
+            }
+        }
+        if !by_src.is_empty() || noid != want_noid {
+            vio("C04", "cloned-non-live-value", format!("clone(): cloned values that are not live cells: {:?} (zero-sized counts {:?} vs {:?})", by_src, &noid[..8], &want_noid[..8]));
+            drop(w2);
+            return;
+        }
+        let _ = cells;
+        let nid = self.ws.len();
+        self.ws.push(Some(w2));
+        self.ms.push(m2);
+        for e in self.book.iter_mut() {
+            if let Some(n) = e.native_in(wid) {
+                e.natives.push(Native { world: nid, ..n });
+            }
+        }
+        self.stats.inc("F9_fork");
+        if self.ms[wid].archs.iter().any(|a| a.len > 0 && a.len < a.cap) {
+            self.stats.inc("fork_below_capacity");
+        }
+        if self.ms[wid].archs.iter().any(|a| a.removals > 0 && a.len > 0) {
+            self.stats.inc("fork_after_removals");
+        }
+        // identical at the fork instant: audit the replica against the copied model, all handles
+        let save = self.cur;
+        self.cur = nid;
+        self.audit_step(true);
+        self.cur = save;
+    }
+
+    /// Forks taken from INSIDE a borrow-mode closure or under a held shared guard (stashed by
+    /// `run_access`) are kept as replicas, exactly like top-level forks.
+    pub fn adopt_forks(&mut self, wid: usize) {
+        for (wb, mb, log) in rt::take_forks() {
+            let (w2, base) = match (wb.downcast::<W>(), mb.downcast::<Model>()) {
+                (Ok(w), Ok(m)) => (*w, *m),
+                _ => continue,
+            };
+            if self.alive_worlds().len() >= 4 || rt::has_violation() {
+                drop(w2);
+                continue;
+            }
+            self.stats.inc("fork_from_inside_borrowed_access");
+            rt::h(&[0xF04B, log.len() as u64]);
+            self.register_fork(wid, w2, base, &log);
         }
     }
 
